@@ -38,11 +38,13 @@ Inductive gobs :=
 
 Definition has_incompat (o : gobs) : bool := match o with GIncompat | GBoth => true | _ => false end.
 
-Definition grid_case := (N * nat * ctx * gobs)%type.   (* index, position of the function in [table], context, observation *)
+(* the "invalid use of" message as the harness read it: position of the function it names in
+   [table], index of its " in ..." suffix in the run's table of observed suffixes *)
+Definition grid_case := (N * nat * ctx * gobs * option (nat * nat))%type.   (* index, position of the function in [table], context, observation *)
 
 Definition grid_ok (c : grid_case) : bool :=
   match c with
-  | (_, fi, cx, o) =>
+  | (_, fi, cx, o, _) =>
       match o with
       | GPanic => true
       | _ =>
@@ -64,8 +66,24 @@ Definition grid_ok (c : grid_case) : bool :=
       end
   end.
 
-Definition grid_mismatches (cs : list grid_case) : list N :=
-  flat_map (fun c => if grid_ok c then [] else match c with (i, _, _, _) => [i] end) cs.
+(* the message names the function that was called and the expression it was called in:
+   it is incompatible_msg (f_name e) (ctx_path cx) *)
+Definition msg_ok (sfx : list string) (c : grid_case) : bool :=
+  match c with
+  | (_, fi, cx, o, m) =>
+      match m with
+      | None => negb (has_incompat o)
+      | Some (fi', si) =>
+          has_incompat o && Nat.eqb fi fi' &&
+          match nth_error sfx si with
+          | Some s => String.eqb s (report_suffix (ctx_path cx))
+          | None => false
+          end
+      end
+  end.
+
+Definition grid_mismatches_s (sfx : list string) (cs : list grid_case) : list N :=
+  flat_map (fun c => if grid_ok c && msg_ok sfx c then [] else match c with (i, _, _, _, _) => [i] end) cs.
 
 (* the dynamic type of eval.Current() (and the interfaces it implements) per context *)
 Definition ctx_case := (N * ctx * list etype * option dkind)%type.
